@@ -26,7 +26,7 @@ def build_pkg(ctx, schema_name, schema_files, config_name, must=True):
     cfg = dict(CONFIGS[config_name])
     name = "%s_%s" % (schema_name.replace("-", "_"), config_name.replace("-", "_"))
     opts = gen.go_opts(tl2=cfg.get("tl2", "*"), split=cfg.get("split", False), bytes_versions=cfg.get("bytes_versions", ""),
-                       sanity=cfg.get("sanity", True), random=True, rpc=False)
+                       sanity=cfg.get("sanity", True), random=True, rpc=False, extra=cfg.get("extra", ()))
     files = [f if os.path.isabs(f) else os.path.join(ctx.scratch, f) for f in schema_files]
     r, out_rel, imp = gen.gen_go(ctx, name, files, opts)
     if r.rc != 0:
